@@ -41,6 +41,22 @@ def cmp (what : String) (exp : List (Rat × Rat × Char)) (out : List (Rat × Op
   ((exp.zip out).zipIdx.find? fun (((x, y, f), (x', y', f')), _) => !(close x x' && f == f' && (match y' with | some v => close y v | none => false))).map
     fun (((_, y, f), (_, y', f')), i) => s!"{what} row {i}: expected {showR y} {f}, written {(y'.map showR).getD "nan"} {f'}"
 
+/-- `exp` to far below the comparison tolerance: argument halved until below 1/2, 30 Taylor terms, squared back -/
+def expApprox (t : Rat) : Rat :=
+  let s := (List.range 64).find? (fun k => absRat t / (2 ^ k : Nat) ≤ 1 / 2) |>.getD 64
+  let u := t / (2 ^ s : Nat)
+  let taylor := ((List.range 30).foldl (fun (acc : Rat × Rat) (k : Nat) => (acc.1 + acc.2, acc.2 * u / ((k : Rat) + 1))) (0, 1)).1
+  -- keep the numbers small between the squarings: round to 40 significant binary digits beyond the magnitude
+  let trim (q : Rat) : Rat := let sc : Rat := (2 : Rat) ^ (120 : Nat); ((q * sc).floor : Rat) / sc
+  (List.range s).foldl (fun acc _ => trim (acc * acc)) (trim taylor)
+
+/-- as `cmp`, with the tolerance of values that went through `exp` and products of large numbers (1e-9 relative) -/
+def cmpTol (what : String) (exp : List (Rat × Rat × Char)) (out : List (Rat × Option Rat × Char)) : Option String :=
+  let close9 (a b : Rat) : Bool := absRat (a - b) ≤ (absRat a + absRat b) / 10 ^ 9 + 1 / 10 ^ 12
+  if exp.length != out.length then some s!"{what}: {out.length} rows written, {exp.length} expected" else
+  ((exp.zip out).zipIdx.find? fun (((x, y, f), (x', y', f')), _) => !(close x x' && f == f' && (match y' with | some v => close9 y v | none => false))).map
+    fun (((_, y, f), (_, y', f')), i) => s!"{what} row {i}: expected {showR y} {f}, written {(y'.map showR).getD "nan"} {f'}"
+
 def verdict (tag : String) (st : String) (expOk : Bool) (e : Option String) : Verdict :=
   if st != "ok" then { agree := !expOk, propOk := !expOk, tag := tag ++ "-died", msg := s!"{tag}: the script died on an input the model accepts" }
   else if !expOk then { agree := false, propOk := false, tag := tag, msg := s!"{tag}: the script wrote a table where the model says it dies" }
@@ -116,6 +132,18 @@ def handle (args : List String) : Verdict :=
       let (st, out) ← pOut
       let o := if op == "add" then CombOp.add else if op == "sub" then CombOp.sub else if op == "mul" then CombOp.mul else CombOp.dist
       pure (verdict s!"COMBINE-{op}" st true (cmp "COMBINE" ((combine o sc (rows.map (·.1)) (rows.map (·.2))).map fun r => (r.x, r.y, r.flag)) out))
+    match p.run rest with | some (v, []) => v | _ => { agree := false, msg := "bad-line", tag := "bad" }
+  | "extrap" :: _sid :: fn :: region :: fu :: rest =>
+    let p : P Verdict := do
+      let avg ← nat; let curv ← rat; let n ← nat
+      let rows ← many row n
+      let (st, out) ← pOut
+      let f : ExFun := if fn == "constant" then .constant else if fn == "linear" then .linear else if fn == "quadratic" then .quadratic
+                       else if fn == "sasha" then .sasha else if fn == "periodic" then .periodic else .exponential
+      let o : ExOpts := { fn := f, avg := avg, curv := curv, left := region != "right", right := region != "left", flagUpdate := fu == "1" }
+      match extrapolate o expApprox rows with
+      | none => pure (verdict s!"EXTRAPOLATE-{fn}" st false none)
+      | some m => pure (verdict s!"EXTRAPOLATE-{fn}-{region}" st true (cmpTol "EXTRAPOLATE" (m.map fun r => (r.x, r.y, r.flag)) out))
     match p.run rest with | some (v, []) => v | _ => { agree := false, msg := "bad-line", tag := "bad" }
   | _ => { agree := false, msg := "bad-line", tag := "bad" }
 
